@@ -442,8 +442,9 @@ fn search(seed: u64, random: usize) {
                 found.push("deterministic");
                 let s = (0..steps.len()).find(|s| steps[*s] != again[*s]).unwrap_or(0);
                 let q = (0..steps[s].obs.len()).find(|q| steps[s].obs[*q] != again[s].obs[*q]).unwrap_or(0);
-                println!("FOUND deterministic: history #{k} ({}), {}: after `{}`: require({:?}) -> {:?} in run 1, {:?} in run {} of the same history in a fresh analysis",
-                    sc.what, describe(sc), sc.show_ops(s + 1), sc.queries[q], steps[s].obs[q], again[s].obs[q], r + 1);
+                let show = |o: Option<&Obs>| o.map(|o| format!("{} (type of the call `{}`, of the local `{}`)", match &o.found { None => "None".to_string(), Some(Ok(i)) => sc.short(*i), Some(Err(u)) => u.clone() }, o.call_ty, o.local_ty)).unwrap_or_default();
+                println!("FOUND deterministic: history #{k} ({}), {}: after `{}`: require({:?}) -> {} in run 1, -> {} in run {} of the same history in a fresh analysis",
+                    sc.what, describe(sc), sc.show_ops(s + 1), sc.queries.get(q).cloned().unwrap_or_default(), show(steps[s].obs.get(q)), show(again[s].obs.get(q)), r + 1);
             }
         }
         hashes.push(h);
